@@ -49,7 +49,13 @@ static void __attribute__((noinline)) make_owned(int n, int chain) {
     var p = new(Probe, $I(i));
     var b = new(Box, p);
     /* (a Box constructed from a Box takes over the same target: that would be two owners of one object) */
-    if (chain) { var t = new(Tuple, b); (void)t; }       /* a second garbage object that reaches the owner */
+    if (chain == 1) { var t = new(Tuple, b); (void)t; }       /* a second garbage object that reaches the owner */
+    if (chain == 2) {                                          /* ownership cycles: two Boxes owning each other, one owning itself */
+      var c1 = new(Box, new(Probe, $I(i))), c2 = new(Box, new(Probe, $I(i)));
+      del(deref(c1)); del(deref(c2));                          /* (the placeholders go; then the Boxes point at each other) */
+      ref(c1, c2); ref(c2, c1);
+      if (i % 3 == 0) { var c3 = alloc(Box); ref(c3, c3); }
+    }
   }
 }
 static void __attribute__((noinline)) scrub_stack(void) { volatile char* p = alloca(1 << 15); memset((void*)p, 0, 1 << 15); }
